@@ -10,6 +10,7 @@ import EaselModel.Msafile.Selex
 import EaselModel.Msafile.Stockholm
 import EaselModel.Msafile.Dump
 import EaselModel.Msafile.Guess
+import EaselModel.Msafile.StoNum
 /-! Line-protocol driver for the C01 model: `parse fmt=… abc=… src=… ps=… [sfx=…] hex=…`.  The page size is irrelevant to the
     model (it sits on the abstract line reader); the source only decides whether the buffer has a file name
     (`esl_msafile_Open`: `h_msafile_<pid>.<sfx>`; memory and streams have none), which format autodetection looks at.
@@ -66,7 +67,7 @@ def parseOp (ws : List String) : String :=
     | .enoformat => "open=enoformat"
     | .enoalphabet => "open=enoalphabet"
     | .fault => "fault"
-    | .ok o => "open=ok fmt=" ++ fmtName o.fmt ++ " abc=" ++ abcName o.abc ++ readAll o.read 64 lines
+    | .ok o => "open=ok fmt=" ++ fmtName o.fmt ++ " abc=" ++ abcName o.abc ++ readAll o.readV 64 lines
   | _, _, _ => "unmodelled"
 
 /-- coverage probe (model side only; the harness has no such op): which deep checks say what -/
